@@ -897,8 +897,8 @@ class C16(Check):
                 diag = [[x] * K for _ in range(L)]
             wtext = "".join("%d %s\n" % (a, " ".join(diag[a])) for a in range(L))
             adj = "".join("%s %s %s\n" % (s, d, " ".join(str(w) for w in ws)) for s, d, ws in recs)
-            argv = ["--a", "adj.dat", "--k", str(K), "--w", "w.dat", "--r", str(rng.choice([1, 2, 3])),
-                    "--maxit", str(rng.choice([1, 5, 12, 30])), "--s", str(rng.randint(0, 99)), "--o", "out"]
+            argv = ["--a", "adj.dat", "--k", str(K), "--w", "w.dat", "--r", str(rng.choice([1, 2, 3]) if K < 10 else 1),
+                    "--maxit", str(rng.choice([1, 5, 12, 30]) if K < 10 else rng.choice([1, 2])), "--s", str(rng.randint(0, 99)), "--o", "out"]
             if undirected:
                 argv.append("--undirected")
             if assort:
